@@ -410,6 +410,18 @@ func GenTuple(r *hx.Rand, m *Model) (Tuple, bool) {
 	if tu.Cond != "" {
 		tu.Ctx = genCtx(r, m, tu.Cond)
 	}
+	// a leftover of a model version whose condition was retired since: the tuple names a condition the current model
+	// does not define (never valid for read: it must be ignored, not evaluated). Chosen by a hash of the tuple, not by
+	// the PRNG, so that the case streams keep their draws.
+	if tu.Cond != "" {
+		h := fnv.New64a()
+		h.Write([]byte(m.Encode()))
+		h.Write([]byte{0})
+		h.Write([]byte(tu.String()))
+		if (h.Sum64()>>17)%12 == 0 {
+			tu.Cond = "c9"
+		}
+	}
 	return tu, true
 }
 
